@@ -169,7 +169,7 @@ def match_cases(draw):
             "set2": "self" if mode2 == "self" else {"pts": pts2, "bulk": bulk2},
             "radius": radii if perpoint else choices[0],
             "rkind": draw(st.sampled_from(["float", "len1", "list", "f4"])) if not perpoint
-            else draw(st.sampled_from(["array", "list", "f4"])),
+            else draw(st.sampled_from(["array", "list", "f4", "strided", "swapped"])),
             "maxmatch": draw(st.sampled_from(MAXMATCH)),
             "container": draw(st.sampled_from(htmsets.CONTAINERS)),
             "split": draw(st.integers(0, n1))}
@@ -201,6 +201,9 @@ class Setup(object):
             if rk == "f4":
                 self.rad_c = arr.astype("f4")
                 self.rad = self.rad_c.astype("f8")
+            elif rk in ("strided", "swapped"):
+                # the per-point radius is an array argument like the coordinates (a catalogue column)
+                self.rad_c, self.rad = htmsets.as_container(arr, rk)
             else:
                 self.rad_c = arr.tolist() if rk == "list" else arr
                 self.rad = arr
@@ -410,6 +413,18 @@ def check_matcher(case, ctx):
     cat = tuple(np.concatenate([p[k] for p in parts]) for k in range(3))
     require(all(np.array_equal(a, b) for a, b in zip(cat, res)),
             "Matcher re-used for the query split at %d gives different pairs than the single query", s)
+    if isinstance(su.ra2_c, np.ndarray) and isinstance(su.dec2_c, np.ndarray) and not su.selfmatch:
+        # the catalogue arrays handed to the constructor are the caller's: he may reuse them as buffers; the
+        # Matcher answers for the points it was built from
+        keep = (su.ra2_c.copy(), su.dec2_c.copy())
+        su.ra2_c[...] = (su.ra2_c + 17.0) % 360.0
+        su.dec2_c[...] = -su.dec2_c
+        again = must(mobj.match, su.ra1_c, su.dec1_c, su.rad_c, maxmatch=su.maxmatch)
+        su.ra2_c[...] = keep[0]
+        su.dec2_c[...] = keep[1]
+        require(all(np.array_equal(a, b) for a, b in zip(again, res)), "after the arrays the Matcher was built from were "
+                "overwritten by the caller, Matcher.match returns other pairs than before (%d vs %d)", again[0].size,
+                res[0].size)
     # a cone search widened step by step around one position on the same object (scalar radii, the position the
     # first point): each call is judged on its own against the brute-force separations
     i0 = 0
